@@ -63,7 +63,7 @@ def run(ctx):
                 for q in (p, p + "_index"):
                     if os.path.exists(q):
                         os.unlink(q)
-                prog, n_rej, err = gw.write_resilient(prog, nptdms, version, None, None, by_path=p)
+                prog, n_rej, err = gw.write_resilient(prog, nptdms, version, None, None, by_path=p, first_mode=ctx.rnd.choice(["w", "w", "a", "a+idx"]))
                 data, index = (open(p, "rb").read(), open(p + "_index", "rb").read()) if os.path.exists(p) else (b"", b"")
                 stats["by_path"] += err is None
             elif mode == 2:
@@ -107,7 +107,7 @@ def run(ctx):
         shutil.rmtree(tmp, ignore_errors=True)
     return dict(violations=violations[:5], disagreements=disagreements[:20],
                 coverage=dict(evaluations=stats["programs"], distinct_nontrivial=len(nontrivial),
-                              rule="writer programs as in C07 (write_segment calls that raise are skipped and must be no-ops), written with index_file = stream (half), False (quarter), True on a path in append mode (quarter); the "
+                              rule="writer programs as in C07 (write_segment calls that raise are skipped and must be no-ops), written with index_file = stream (half), False (quarter), True on a path in append mode (quarter; half of those start by appending to an existing empty file); the "
                                    "strict parser checks every emitted segment; non-trivial = distinct accepted programs containing non-empty string channels (the 28-byte "
                                    "index and offset tables)",
                               samples=samples or [dict(note="none short enough")], counts=stats))
